@@ -167,6 +167,64 @@ class NFA:
         self.mov.append([])
         return len(self.eps) - 1
 
+    def add_assert(self, s, kind_, t):
+        """zero-width \\b ('b') or \\B ('B') edge from s to t"""
+        if not hasattr(self, 'asserts'):
+            self.asserts = {}
+        self.asserts.setdefault(s, []).append((kind_, t))
+
+    def to_dfa_with_boundaries(self, start, final, is_word):
+        """Subset construction over configurations (state, previous symbol
+        is a word character, pending constraint on the next symbol: 0 none /
+        1 must be a word character / 2 must not be one - end of input counts
+        as not one).  A \\b edge needs next != previous, a \\B edge next ==
+        previous."""
+        asserts = getattr(self, 'asserts', {})
+
+        def closure(C):
+            st = list(C)
+            out = set(C)
+            while st:
+                s, pw, pend = st.pop()
+                nxt = [(t, pw, pend) for t in self.eps[s]]
+                for kind_, t in asserts.get(s, ()):
+                    need_word = (not pw) if kind_ == 'b' else bool(pw)
+                    np_ = 1 if need_word else 2
+                    if pend in (0, np_):
+                        nxt.append((t, pw, np_))
+                for c in nxt:
+                    if c not in out:
+                        out.add(c)
+                        st.append(c)
+            return frozenset(out)
+        s0 = closure({(start, 0, 0)})
+        idx = {s0: 0}
+        trans = [None]
+        dq = deque([s0])
+        acc = set()
+        while dq:
+            S = dq.popleft()
+            row = []
+            for a in range(self.k):
+                w = 1 if is_word[a] else 0
+                T = set()
+                for s, pw, pend in S:
+                    if (pend == 1 and not w) or (pend == 2 and w):
+                        continue
+                    for cls, t in self.mov[s]:
+                        if a in cls:
+                            T.add((t, w, 0))
+                T = closure(T)
+                if T not in idx:
+                    idx[T] = len(trans)
+                    trans.append(None)
+                    dq.append(T)
+                row.append(idx[T])
+            trans[idx[S]] = row
+            if any(s == final and pend in (0, 2) for s, pw, pend in S):
+                acc.add(idx[S])
+        return DFA(self.k, trans, 0, acc).minimize()
+
     def to_dfa(self, start, final):
         def closure(S):
             st = list(S)
@@ -297,6 +355,12 @@ class RegexCompiler:
                         cur = b
                         nfa.eps[cur].add(t)
                     cur = t
+            elif op is sre_c.AT and av in (sre_c.AT_BOUNDARY,
+                                           sre_c.AT_NON_BOUNDARY):
+                t = nfa.new()
+                nfa.add_assert(cur, 'b' if av is sre_c.AT_BOUNDARY else 'B',
+                               t)
+                cur = t
             elif op is sre_c.AT:
                 raise AnalysisError('regex anchor in the middle of a pattern '
                                     'is outside the supported fragment')
@@ -348,6 +412,10 @@ class RegexCompiler:
                 nfa.eps[t].add(final)
             else:
                 nfa.eps[b].add(final)
+        if getattr(nfa, 'asserts', None):
+            rxw = re.compile(r'\w')
+            is_word = [rxw.fullmatch(ch) is not None for ch in self.ab.reps]
+            return nfa.to_dfa_with_boundaries(start, final, is_word)
         return nfa.to_dfa(start, final)
 
 
